@@ -81,7 +81,8 @@ def generate_g(repo, outdir, schema, gen_rs, contracts_dir=None, canary=None):
     extract(repo, [e for e in plan if e['items']] + G_RUNTIME_EXTRA, contracts, out)
     runtime_clause_count = len(out.clause_index)
     out.emit(open(os.path.join(contracts_dir, 'g_common_speclib.rs')).read().rstrip('\n'))
-    out.emit(open(os.path.join(contracts_dir, 'g_%s_speclib.rs' % schema)).read().rstrip('\n'))
+    # a differential twin is verified against the reference semantics of the schema it was derived from: the same file
+    out.emit(open(os.path.join(contracts_dir, 'g_%s_speclib.rs' % schema.split('__')[0])).read().rstrip('\n'))
     out.emit('')
     extract_generated(open(fmt).read(), schema, gcontracts, out)
     out.emit('} // verus!')
